@@ -659,7 +659,10 @@ impl<R: BufRead> Read for Dearmor<R> {
                     self.current_part = Part::Done(b);
                     return Ok(read);
                 }
-                Part::Temp => panic!("invalid state"),
+                Part::Temp => {
+                    // a previous call failed while a part was being processed
+                    return Err(io::Error::other("dearmor: reader errored"));
+                }
             }
         }
     }
